@@ -341,6 +341,29 @@ def json_framing(ctx):
         c.replay = {'argv': ['--style', 'consise', '--row-seperator', '|'], 'stdin': '1 [2] "x"', 'expected': '1|[2]|"x"|', 'actual': show(r['stdout']), 'write_failure_not_reported': bad_w}
         c.status = 'reproduced' if r['stdout'] != b'1|[2]|"x"|' or bad_w else 'unit'
         if c.status != 'reproduced':
+            # what a row looks like depends on that row only: neighbours that are equal but not identical, selections that share a name,
+            # a selection missing in one row and present in the next, a write failure on a long non-ASCII row
+            BAT = [([], '{"a":1,"b":2} {"b":2,"a":1} [{"x":1,"y":2}] [{"y":2,"x":1}] 18446744073709551615 18446744073709551616 -9223372036854775808 -9223372036854775809 1 1.0 "a" "a"',
+                    '{"a":1,"b":2}\n{"b":2,"a":1}\n[{"x":1,"y":2}]\n[{"y":2,"x":1}]\n18446744073709551615\n18446744073709551616\n-9223372036854775808\n-9223372036854776000\n1\n1\n"a"\n"a"\n'),
+                   (['--select', '.id=id', '--select', '.name=name'], '{"id":1,"name":"a"} {"name":"b"} {"id":3,"name":"c"} {"id":4}', '{"id":1,"name":"a"}\n{"name":"b"}\n{"id":3,"name":"c"}\n{"id":4}\n')]
+            for argv_, stdin_, exp_ in BAT:
+                rb = run_driver(ctx, ['--style', 'consise'] + argv_, stdin_.encode())
+                if show(rb['stdout']) != exp_ or rb['result'] != 'ok':
+                    c.status = 'reproduced'; c.unmodelled = None; c.replay = {'argv': ['--style', 'consise'] + argv_, 'stdin': stdin_, 'expected_stdout': exp_, 'actual_stdout': show(rb['stdout']), 'result': rb['result']}; break
+            if c.status != 'reproduced':
+                rd_ = run_driver(ctx, ['--style', 'consise', '--select', '.a=name', '--select', '.b=name'], b'{"a":"Ada","b":"Lovelace"}')
+                try:
+                    keys = [k for k, _ in json.loads(show(rd_['stdout']), object_pairs_hook=list)]
+                    dup = len(keys) != len(set(keys))
+                except Exception: dup = True
+                if dup: c.status = 'reproduced'; c.unmodelled = None; c.replay = {'argv': ['--select', '.a=name', '--select', '.b=name'], 'stdin': '{"a":"Ada","b":"Lovelace"}', 'what': 'a member name occurs twice in one row', 'actual_stdout': show(rd_['stdout'])}
+            if c.status != 'reproduced':
+                long_row = json.dumps('x' * 46 + '\u00e9\u4e2d' * 20, ensure_ascii=False).encode('utf-8')
+                for extra_ in (['--utf8-strings'], ['-o', 'text']):
+                    rw = run_driver(ctx, ['--style', 'consise'] + extra_ if extra_[0] != '-o' else extra_, long_row + b' ' + long_row, env={'FAIL_WRITE_AT': '10'})
+                    if not str(rw['result']).startswith('err'):
+                        c.status = 'reproduced'; c.unmodelled = None; c.replay = {'argv': extra_, 'stdin': 'a long non-ASCII string, twice', 'write_failure_at': 10, 'result': rw['result']}; break
+        if c.status != 'reproduced':
             # a writer that takes one byte per call (short writes are legal for io::Write::write) and a run that must stream: rows are out
             # before a later fatal point
             r3 = run_driver(ctx, ['--style', 'consise', '--row-seperator', '|'], b'1 [2] "x"', env={'WRITE_CHUNK': '1'})
